@@ -222,6 +222,12 @@ package goldilocks
 //@ opaque def qe_mulo0(a0, a1, b0, b1) = (a0*b0 + 7*a1*b1) % P
 //@ opaque def qe_mulo1(a0, a1, b0, b1) = (a0*b1 + a1*b0) % P
 //@ def qe_mulo(a, b) = tuple(qe_mulo0(a[0], a[1], b[0], b[1]), qe_mulo1(a[0], a[1], b[0], b[1]))
+//@ opaque def qe_subo0(a0, a1, b0, b1) = (a0 - b0) % P
+//@ opaque def qe_subo1(a0, a1, b0, b1) = (a1 - b1) % P
+//@ def qe_subo(a, b) = tuple(qe_subo0(a[0], a[1], b[0], b[1]), qe_subo1(a[0], a[1], b[0], b[1]))
+//@ opaque def qe_addo0(a0, a1, b0, b1) = (a0 + b0) % P
+//@ opaque def qe_addo1(a0, a1, b0, b1) = (a1 + b1) % P
+//@ def qe_addo(a, b) = tuple(qe_addo0(a[0], a[1], b[0], b[1]), qe_addo1(a[0], a[1], b[0], b[1]))
 //@ def qe_muladd(a, b, c) = tuple((a[0]*b[0] + 7*a[1]*b[1] + c[0]) % P, (a[0]*b[1] + a[1]*b[0] + c[1]) % P)
 //@ def qe_submul(a, b, c) = tuple(((a[0]-b[0])*c[0] + 7*(a[1]-b[1])*c[1]) % P, ((a[0]-b[0])*c[1] + (a[1]-b[1])*c[0]) % P)
 //@ def qe_smul(a, s) = tuple((a[0]*s) % P, (a[1]*s) % P)
@@ -232,8 +238,10 @@ package goldilocks
 //@   props C05 C08
 //@   circuit
 //@   requires chipok(p) && canonQE(a) && canonQE(b)
+//@   reveal qe_addo0 qe_addo1
 //@   ensures canonQE(res)
 //@   ensures res == qe_add(a, b)
+//@   ensures res == qe_addo(a, b)
 
 //@ func (p *Chip) AddExtensionNoReduce(a QuadraticExtensionVariable, b QuadraticExtensionVariable) (res QuadraticExtensionVariable)
 //@   props C05 C08
@@ -245,8 +253,10 @@ package goldilocks
 //@   props C05 C08
 //@   circuit
 //@   requires chipok(p) && canonQE(a) && canonQE(b)
+//@   reveal qe_subo0 qe_subo1
 //@   ensures canonQE(res)
 //@   ensures res == qe_sub(a, b)
+//@   ensures res == qe_subo(a, b)
 
 //@ func (p *Chip) SubExtensionNoReduce(a QuadraticExtensionVariable, b QuadraticExtensionVariable) (res QuadraticExtensionVariable)
 //@   props C05 C08
@@ -296,8 +306,10 @@ package goldilocks
 //@   props C05 C08
 //@   circuit
 //@   requires chipok(p) && canonQE(a) && canon(b)
+//@   reveal qe_smulo0 qe_smulo1
 //@   ensures canonQE(res)
 //@   ensures res == qe_smul(a, b)
+//@   ensures res == qe_smulo(a, b.Limb)
 
 //@ func (p *Chip) ReduceExtension(x QuadraticExtensionVariable) (res QuadraticExtensionVariable)
 //@   props C05 C08
